@@ -311,7 +311,11 @@ where
         let txn_id = match &transfer.state {
             Some(DeliveryState::TransactionalState(state)) => state.txn_id.clone(),
             Some(_) | None => match self.txn_manager.incomplete_posts.get(&transfer.handle) {
-                Some(txn_id) if transfer.delivery_tag.is_none() => txn_id.clone(),
+                Some((txn_id, tag))
+                    if transfer.delivery_tag.is_none() || transfer.delivery_tag == *tag =>
+                {
+                    txn_id.clone()
+                }
                 Some(_) | None => {
                     return self.session.on_incoming_transfer(transfer, payload).await
                 }
@@ -319,13 +323,17 @@ where
         };
         // An aborted transfer ends the delivery whatever its `more` flag says: what follows on the
         // link is not its continuation.
+        let under_way = self.txn_manager.incomplete_posts.remove(&transfer.handle);
         if transfer.more && !transfer.aborted {
+            let tag = match (&transfer.delivery_tag, under_way) {
+                (Some(tag), _) => Some(tag.clone()),
+                (None, Some((_, tag))) => tag,
+                (None, None) => None,
+            };
             let _ = self
                 .txn_manager
                 .incomplete_posts
-                .insert(transfer.handle.clone(), txn_id.clone());
-        } else {
-            let _ = self.txn_manager.incomplete_posts.remove(&transfer.handle);
+                .insert(transfer.handle.clone(), (txn_id.clone(), tag));
         }
         let txn = self
             .txn_manager
